@@ -199,6 +199,8 @@ fn gen_case(r: &mut Prng, big: bool) -> Case {
         case.post.push(Op::Exec { prog: Prog::one(e), ctx: CtxRef::Fresh(CtxSpec::empty()) });
     }
     case.post.push(Op::Parse { prog: Prog::Chain(vec![rf("a"), rf("b"), rf("c")], vec!["+".into(), "*".into()]) });
+    // describe() of a parsed program is as independent of what was evaluated before as evaluation is
+    case.post.push(Op::Describe { prog: Prog::one(tern(bin("<", rf("a"), lit_i(2)), call("max", vec![rf("b"), Expr::List(vec![lit_i(1), un("-", rf("c"))])]), post(rf("a"), "++"))) });
     case
 }
 
